@@ -113,6 +113,58 @@ def _rand_bytes_literals(job):
     return bad
 
 
+def _validator_chunk(job):
+    """E (bounded alphabet): every string over the alphabet up to the length bound - accepted by Bytes(base, s) only if it
+    is made of alphabet / padding characters only and a strict decoder accepts it."""
+    base, alphabet, maxlen, lo, hi = job
+    from vf.core import use_repo
+    use_repo()
+    import pyteal as pt
+    import binascii
+    bad = []
+    n = 0
+    allowed = {"base16": set("0123456789abcdefABCDEF"), "base32": set("ABCDEFGHIJKLMNOPQRSTUVWXYZ234567="),
+               "base64": set("ABCDEFGHIJKLMNOPQRSTUVWXYZabcdefghijklmnopqrstuvwxyz0123456789+/=")}[base]
+    idx = 0
+    for L in range(0, maxlen + 1):
+        for tup in itertools.product(alphabet, repeat=L):
+            idx += 1
+            if not (lo <= idx < hi):
+                continue
+            s = "".join(tup)
+            n += 1
+            try:
+                pt.Bytes(base, s)
+                acc = True
+            except pt.TealInputError:
+                acc = False
+            except Exception as e:
+                bad.append((base, s, f"raised {type(e).__name__}"))
+                continue
+            if not acc:
+                continue
+            body = s[2:] if (base == "base16" and s.startswith("0x")) else s
+            ok = all(c in allowed for c in body)
+            if ok:
+                try:
+                    if base == "base16":
+                        bytes.fromhex(body) if len(body) % 2 == 0 else (_ for _ in ()).throw(ValueError("odd"))
+                    elif base == "base64":
+                        base64.b64decode(body, validate=True)
+                    else:
+                        t = body.rstrip("=")
+                        if "=" in t:
+                            raise ValueError("padding inside")
+                        base64.b32decode(t + "=" * (-len(t) % 8))
+                except (ValueError, binascii.Error):
+                    ok = False
+            if not ok:
+                bad.append((base, s, "accepted although it is not a well-formed literal"))
+                if len(bad) > 3:
+                    return n, bad
+    return n, bad
+
+
 def run(report: Report, tier, seed):
     from vf.core import use_repo
     use_repo()
@@ -132,6 +184,21 @@ def run(report: Report, tier, seed):
                  backend=f"enumeration(code points 0..{hex(chunks[-1][1])}, exhaustive)",
                  detail="for each code point c: the TEAL string-literal parser applied to escapeStr(c) yields utf8(c); the literal is printable ASCII and is one token of its line",
                  model=[hex(c) for c in badcp[:5]] or None))
+    # ---- E (bounded alphabet): the three validators --------------------------------------------------------------
+    vjobs = []
+    L = 5 if tier == "quick" else 6
+    for base, alpha in (("base64", ["A", "Q", "=", "\n", " ", "+", "/", "\r"]), ("base32", ["A", "M", "7", "=", "\n", " ", "1", "a"]),
+                        ("base16", ["0", "a", "F", "x", "\n", " ", "g"])):
+        total = sum(len(alpha) ** k for k in range(L + 1))
+        step = total // 5 + 1
+        for lo in range(1, total + 1, step):
+            vjobs.append((base, alpha, L, lo, lo + step))
+    with ProcessPoolExecutor(max_workers=16) as ex:
+        vres = list(ex.map(_validator_chunk, vjobs))
+    vbad = [b for _, bl in vres for b in bl]
+    report.ob(Ob(id="O13.3/validators/bounded-alphabet", function="pyteal.types.valid_base16 / valid_base32 / valid_base64 (through Bytes)", kind="E",
+                 status="refuted" if vbad else "discharged", backend=f"enumeration(all strings of length <= {L} over 7-8 character alphabets incl. newline, space, CR; {sum(n for n, _ in vres)} strings)",
+                 detail="a literal is accepted only if it consists of alphabet / padding characters and a strict decoder accepts it", model=[list(b) for b in vbad[:4]] or None))
     # ---- P: Int.__init__ ------------------------------------------------------------------------------------------
     run_contracts(report, [("contracts.c13_int", "IntInit", "O13.4")])
     # ---- B: concatenations / other literal forms --------------------------------------------------------------------
